@@ -1768,3 +1768,318 @@ def _mk_dispatch_target(key):
 
 for _k in (KEY_CART, KEY_SPH, f"{IA}:_locate_droplets_in_mask_cylindrical"):
     _mk_dispatch_target(_k)
+
+
+# =====================================================================================================================
+# cylindrical grids: _locate_droplets_in_mask_cylindrical_single and the periodic wrapper
+KEY_CYS = f"{IA}:_locate_droplets_in_mask_cylindrical_single"
+KEY_CYL = f"{IA}:_locate_droplets_in_mask_cylindrical"
+SR0, SR1 = z3.Function("object_r_start", I, I), z3.Function("object_r_stop", I, I)
+SZ0, SZ1 = z3.Function("object_z_start", I, I), z3.Function("object_z_stop", I, I)
+ONCNT = z3.Function("on_axis_objects_among_first", I, I)       # j -> #{k < j : object k touches the axis}
+ONELEM = z3.Function("pth_on_axis_object", I, I)               # p -> index k of the p-th on-axis object
+COMZ = z3.Function("mean_z_index_of_object", I, Rl)
+COMR = z3.Function("mean_r_index_of_object", I, Rl)
+VOLSUM = z3.Function("summed_cell_volume_of_object", I, Rl)
+
+
+def on_axis(k):
+    return SR0(k) == 0
+
+
+def on_axis_facts(n, at):
+    out = [ONCNT(0) == 0]
+    for j in at:
+        out += [ONCNT(j + 1) == ONCNT(j) + z3.If(on_axis(j), 1, 0), ONCNT(j) >= 0,
+                z3.Implies(z3.And(j >= 0, j <= n), ONCNT(j) <= ONCNT(n)),
+                z3.Implies(z3.And(j >= 0, on_axis(j)), ONELEM(ONCNT(j)) == j)]
+    return out
+
+
+class SCylGrid:
+    def __init__(self, run, periodic_z):
+        self.dim = 3
+        self.nr, self.nz = run.input_int("N_r"), run.input_int("N_z")
+        self.dz, self.z0 = run.input_real("dz"), run.input_real("z_min")
+        run.assume(z3.And(self.nr >= 1, self.nz >= 1, self.dz > 0))
+        self.periodic_z = periodic_z
+        self.calls = []
+
+    def sym_isinstance(self, run, t):
+        return isinstance(t, SExternal) and t.name in ("pde.grids.cylindrical.CylindricalSymGrid", "pde.grids.CylindricalSymGrid", "pde.grids.base.GridBase")
+
+    def sym_getattr(self, run, attr):
+        run.trust(f"A-PDE: CylindricalSymGrid.{attr}: axes (r, z); transform(cell -> cartesian) maps the z cell coordinate c to z_min + c * dz; "
+                  "cell_volume_data = (r-dependent ring volumes, dz)")
+        if attr == "dim":
+            return 3
+        if attr == "num_axes":
+            return 2
+        if attr == "shape":
+            return (self.nr, self.nz)
+        if attr == "periodic":
+            return [False, self.periodic_z]
+        if attr == "axes_bounds":
+            return ((z3.RealVal(0), run.input_real("r_outer")), (self.z0, self.z0 + z3.ToReal(self.nz) * self.dz))
+        if attr == "length":
+            return z3.ToReal(self.nz) * self.dz
+        if attr == "cell_volume_data":
+            return (SOpaque("vol_r"), SOpaque("dz-array"))
+        if attr == "transform":
+            def tr(run2, a, k):
+                src, tgt = (list(a[1:3]) + [None, None])[:2]
+                src, tgt = k.get("source", src), k.get("target", tgt)
+                self.calls.append(("transform", a[0], src, tgt))
+                if isinstance(a[0], CylPos) and src == "cell" and tgt == "cartesian":
+                    return CylPos(a[0].offset, transformed=self)
+                raise Undecided(f"grid.transform({src} -> {tgt}) of {type(a[0]).__name__}")
+            return SNative(tr, "grid.transform")
+        return _MISSING
+
+
+class CylPos:
+    """center_of_mass(mask, labels, index=indices) (+ offset) (transformed): row p belongs to the p-th on-axis object"""
+
+    def __init__(self, offset=0, transformed=None):
+        self.offset, self.transformed = offset, transformed
+
+    def sym_binop(self, run, op, other, reflected):
+        if isinstance(op, ast.Add) and is_num(other) and self.transformed is None:
+            return CylPos(ops.binop(run, ast.Add(), self.offset, other), None)
+        return NotImplemented
+
+    def row(self, p):
+        k = ONELEM(to_z3(p))
+        if self.transformed is None:
+            return SArr([COMR(k) + to_real(self.offset), COMZ(k) + to_real(self.offset)])
+        g = self.transformed
+        # cartesian point of the cell coordinate: (x, y, z) with z = z_min + (z cell coordinate) * dz; x, y are not used by the code
+        return SArr([z3.Real("cart_x"), z3.Real("cart_y"), g.z0 + (COMZ(k) + to_real(self.offset)) * g.dz])
+
+    def sym_iter(self, run):
+        n_on = run.ghost["cyl"]["n_on"]
+        return SSeq(n_on, lambda p: self.row(p), "positions", "iter")
+
+
+class CylVol:
+    def sym_iter(self, run):
+        n_on = run.ghost["cyl"]["n_on"]
+        return SSeq(n_on, lambda p: VOLSUM(ONELEM(to_z3(p))), "volumes", "iter")
+
+
+def _cyl(run):
+    return run.ghost.get("cyl")
+
+
+_cart_label, _cart_com, _cart_sum, _cart_find = (models.EXTERNALS[k_] for k_ in ("scipy.ndimage.label", "scipy.ndimage.center_of_mass", "scipy.ndimage.sum",
+                                                                                   "scipy.ndimage.find_objects"))
+
+
+@models.external("scipy.ndimage.label")
+def _nd_label2(engine, run, a, k):
+    g = _cyl(run)
+    if g is None:
+        return _cart_label(engine, run, a, k)
+    ok = a[0] is g["mask"] and len(a) == 1 and not k
+    run.oblige("the given image itself is labelled", z3.BoolVal(bool(ok)), kind="requires", assume_after=False)
+    run.trust("ASSUMED (scipy.ndimage.label): labels the face-connected components 1..n")
+    g["labels"] = SOpaque("labels")
+    return (g["labels"], g["n"])
+
+
+@models.external("scipy.ndimage.find_objects")
+def _find_objects2(engine, run, a, k):
+    g = _cyl(run)
+    if g is None:
+        return _cart_find(engine, run, a, k)
+    run.trust("ASSUMED (scipy.ndimage.find_objects, 2-d): entry k is the bounding box (r-slice, z-slice) of the object with label k+1")
+
+    class Sl:
+        def __init__(self, lo, hi):
+            self.lo, self.hi = lo, hi
+
+        def sym_getattr(self, run2, attr):
+            return {"start": self.lo, "stop": self.hi}.get(attr, _MISSING)
+    return SSeq(g["n"], lambda i: (Sl(SR0(to_z3(i)), SR1(to_z3(i))), Sl(SZ0(to_z3(i)), SZ1(to_z3(i)))), "objects", "list")
+
+
+@models.external("scipy.ndimage.center_of_mass")
+def _nd_com2(engine, run, a, k):
+    g = _cyl(run)
+    if g is None:
+        return _cart_com(engine, run, a, k)
+    idx = k.get("index", a[2] if len(a) > 2 else None)
+    ok = a[0] is g["mask"] and a[1] is g["labels"] and isinstance(idx, IndexList)
+    run.oblige("the centre of mass is taken of the binary image, per on-axis label", z3.BoolVal(bool(ok)), kind="requires", assume_after=False)
+    run.trust("ASSUMED (scipy.ndimage.center_of_mass): row p is the mean index of the cells with the p-th requested label")
+    g["com"] = True
+    return CylPos()
+
+
+@models.external("scipy.ndimage.sum", "scipy.ndimage.sum_labels")
+def _nd_sum2(engine, run, a, k):
+    g = _cyl(run)
+    if g is None:
+        return _cart_sum(engine, run, a, k)
+    idx = k.get("index", a[2] if len(a) > 2 else None)
+    ok = a[0] is g.get("cell_volumes") and a[1] is g["labels"] and isinstance(idx, IndexList)
+    run.oblige("the volume is the sum of the CELL VOLUMES (ring volume x dz) over the object's cells, per on-axis label", z3.BoolVal(bool(ok)),
+               kind="requires", assume_after=False)
+    run.trust("ASSUMED (scipy.ndimage.sum_labels): entry p is the sum of the input over the cells with the p-th requested label")
+    g["sum"] = True
+    return CylVol()
+
+
+@models.external("numpy.outer")
+def _np_outer(engine, run, a, k):
+    g = _cyl(run)
+    if g is None or not (isinstance(a[0], SOpaque) and a[0].tag == "vol_r" and isinstance(a[1], SOpaque) and a[1].tag == "dz-array"):
+        raise Undecided("np.outer of something else than the cylindrical cell volume factors")
+    g["cell_volumes"] = SOpaque("cell_volumes")
+    return g["cell_volumes"]
+
+
+class IndexList:
+    """`indices`: the labels (k + 1) of the on-axis objects seen so far, in order"""
+
+    def __init__(self, length):
+        self.length = length
+        self.appended = []
+
+    def sym_len(self, run):
+        return self.length
+
+    def sym_truth(self, E):
+        return to_z3(self.length) > 0
+
+    def sym_getattr(self, run, attr):
+        if attr == "append":
+            def app(run2, a, k):
+                self.appended.append(a[0])
+                self.length = to_z3(self.length) + 1
+            return SNative(app, "list.append")
+        return _MISSING
+
+
+class CylObjLoop(LoopSpec):
+    force = True
+
+    def init_ghost(self, run, env):
+        pass
+
+    def havoc(self, run, env):
+        env["indices"] = IndexList(run.fresh_int("n_indices"))
+
+    def invariant(self, run, env, j, seq):
+        g = run.ghost["cyl"]
+        for f in on_axis_facts(g["n"], [j, j - 1]):
+            run.define(f, "filter count / enumeration facts (on-axis objects)")
+        ind = env["indices"]
+        if isinstance(ind, list):
+            yield ("`indices` lists the on-axis objects seen so far", z3.And(z3.BoolVal(len(ind) == 0), ONCNT(j) == 0))
+        elif isinstance(ind, IndexList):
+            yield ("`indices` lists the on-axis objects seen so far", to_z3(ind.length) == ONCNT(j))
+        else:
+            yield ("`indices` is a list", z3.BoolVal(False))
+
+    def before_body(self, run, env, j, seq):
+        ind = env["indices"]
+        if isinstance(ind, IndexList):
+            ind.appended.clear()
+        run.ghost["cyl"]["cur"] = j
+
+    def after_body(self, run, env, j, seq):
+        ind = env["indices"]
+        apps = ind.appended if isinstance(ind, IndexList) else None
+        if apps is None:
+            return
+        run.oblige("an object's label (its position + 1) is appended to `indices` exactly when its bounding box starts at the symmetry axis (r-index 0)",
+                   z3.And(z3.BoolVal(len(apps) <= 1), z3.BoolVal(len(apps) == 1) == on_axis(j), *([to_z3(apps[0]) == j + 1] if len(apps) == 1 else [])),
+                   kind="ensures", assume_after=False)
+
+
+LOOPS[(KEY_CYS, 0)] = CylObjLoop()
+
+
+@register
+class LocateCylSingle(Contract):
+    key = KEY_CYS
+    modular = False
+
+    def cases(self):
+        return [dict()]
+
+    def setup(self, run, case):
+        grid = SCylGrid(run, False)
+        mask = SOpaque("mask")
+        n = run.input_int("num_features")
+        run.assume(n >= 0)
+        k = z3.Int("fk")
+        run.assume(z3.ForAll([k], z3.And(SR0(k) >= 0, SR0(k) < SR1(k), SZ0(k) >= 0, SZ0(k) < SZ1(k))))
+        n_on = run.input_int("n_on_axis")
+        run.assume(n_on == ONCNT(n))
+        run.ghost["cyl"] = dict(mask=mask, n=n, n_on=n_on, grid=grid)
+        models.CONSTRUCTORS["Emulsion"] = _em_ctor
+        models.CONSTRUCTORS["SphericalDroplet"] = _sd_ctor
+        self.ctx = dict(run=run, grid=grid, n=n, n_on=n_on)
+        return dict(grid=grid, mask=mask)
+
+    def raises(self, a, exc, case):
+        c = self.ctx
+        run = c["run"]
+        j = run.ghost["cyl"].get("cur")
+        if exc.cls_name == "_SpanningDropletSignal" and j is not None:
+            return [("the spanning signal is raised only for an on-axis object whose z-extent starts at 0 and reaches beyond the grid's z-length",
+                     z3.And(on_axis(j), SZ0(j) == 0, SZ1(j) > c["grid"].nz))]
+        return [(f"no other exception escapes (raised {exc.cls_name})", False)]
+
+    def post(self, a, ret, case):
+        c = self.ctx
+        run, grid, n, n_on = c["run"], c["grid"], c["n"], c["n_on"]
+        g = run.ghost["cyl"]
+        for f in on_axis_facts(n, [n]):
+            run.define(f, "filter facts")
+        if not isinstance(ret, EmRec):
+            return [("returns an Emulsion", False)]
+        if ret.kind == "empty":
+            return [("an empty emulsion is returned exactly when no object touches the symmetry axis (this includes the image without set cells)", n_on == 0)]
+        out = [("with an on-axis object the result is not the empty-emulsion shortcut", n_on >= 1)]
+        src = ret.source_seq
+        ok = isinstance(src, SSeq)
+        out.append(("one droplet per on-axis object, in label order", z3.And(z3.BoolVal(bool(ok)), to_z3(src.length) == n_on) if ok else False))
+        if ok:
+            p = z3.Int("sk_obj")
+            v = src.at(p)
+            good = isinstance(v, CandRec) and isinstance(v.position, (SArr, list)) and z3.is_expr(v.volume)
+            out.append(("droplet p is SphericalDroplet.from_volume(position, volume) of the p-th on-axis object", bool(good)))
+            if good:
+                pos = v.position.elems if isinstance(v.position, SArr) else list(v.position)
+                kk = ONELEM(p)
+                out.append(("it lies on the symmetry axis: x = y = 0", z3.And(to_real(pos[0]) == 0, to_real(pos[1]) == 0) if len(pos) == 3 else False))
+                out.append(("its z is the mean z of the cell CENTRES of the object: z_min + (mean z index + 1/2) * dz",
+                            to_real(pos[2]) == grid.z0 + (COMZ(kk) + z3.RealVal("1/2")) * grid.dz if len(pos) == 3 else False))
+                out.append(("its volume is the summed cell volume of the object", v.volume == VOLSUM(kk)))
+        out.append(("centre of mass and volume sums are taken per on-axis label of the labelled image", bool(g.get("com") and g.get("sum"))))
+        return out
+
+
+_prev_nparray_lm = models.EXTERNALS["numpy.array"]
+
+
+def _nparray_lm(engine, run, a, k):
+    if run.ghost.get("cyl") is not None and a and isinstance(a[0], list) and len(a[0]) == 3 and not k:
+        return SArr(list(a[0]))
+    return _prev_nparray_lm(engine, run, a, k)
+
+
+models.EXTERNALS["numpy.array"] = _nparray_lm
+_prev_asarray_lm = models.EXTERNALS["numpy.asarray"]
+
+
+def _asarray_lm(engine, run, a, k):
+    if a and isinstance(a[0], (CylPos, CylVol)):
+        return a[0]
+    return _prev_asarray_lm(engine, run, a, k)
+
+
+models.EXTERNALS["numpy.asarray"] = _asarray_lm
